@@ -163,7 +163,7 @@ def random_program(pid, rnd, gen=False, maxd=3, focus=None):
     ops = []
     if gen:
         menu = ['next', 'next', 'next', 'throw', 'return'] if focus != 'abrupt' else ['next', 'next', 'throw', 'return', 'return']
-        ops = [dict(op=rnd.choice(menu), v=rnd.randint(1, 9), ctx=rnd.choice([0, 0, 1, 2, 3]))
+        ops = [dict(op=rnd.choice(menu), v=rnd.randint(1, 9), ctx=rnd.choice([0, 0, 1, 2, 3, 4]))
                for _ in range(rnd.randint(1, 6) if focus != 'abrupt' else rnd.randint(2, 6))]
     return dict(id=pid, root=root, nodes=g.b.nodes, gen=1 if gen else 0, ops=ops)
 
@@ -361,6 +361,25 @@ def mkcall(n):
     return 'mk(%d,%d,%d,%d,%d,%d)' % (n['l'], n['n'], n['b'], n['c'], n['nt'], n['k'] if n['t'] == 'ystar' else 0)
 
 
+def _scope_enter(opts, out, p):
+    """variant "scopes": every statement block declares a block-scoped variable captured by a closure (so it lives in a heap scope);
+    returns the options for the statements of the block"""
+    if opts.get('scopes') is None:
+        return opts
+    opts['scopectr'][0] += 1
+    ident = opts['scopectr'][0]
+    name = 'v%d' % len(opts['scopes'])
+    out.append(p + '  let %s = %d; var __c%d = function(){ return %s };' % (name, ident, ident, name))
+    return dict(opts, scopes=opts['scopes'] + [(name, ident)])
+
+
+def _chk(opts):
+    """the term added to every logged number: 0 while every enclosing block's variable is seen with its own value"""
+    if not opts.get('scopes'):
+        return ''
+    return ' + (%s ? 0 : 500000)' % ' && '.join('%s === %d' % (n, v) for n, v in opts['scopes'])
+
+
 def print_stmts(nodes, i, ind=1, opts=None, single=False):
     opts = opts or {}
     out = []
@@ -371,11 +390,13 @@ def print_stmts(nodes, i, ind=1, opts=None, single=False):
         if opts.get('probes') and t not in ('label',) and not opts.get('label_prefix') and not (single and opts.get('skip_probe')):
             out.append(p + 'probe();')          # fault-injection point at every statement boundary
         if t == 'log':
-            out.append(p + 'log(%d);' % n['n'])
+            out.append(p + 'log(%d%s);' % (n['n'], _chk(opts)))
         elif t == 'empty':
             out.append(p + ';')
         elif t == 'yield':
-            if opts.get('async'):
+            if opts.get('scopes') is not None:
+                out.append(p + 'log(7000 + (yield %d)%s);' % (n['n'], _chk(opts)))
+            elif opts.get('async'):
                 out.append(p + 'log(7000 + (await AW(%d)));' % n['n'])
             elif opts.get('yform'):
                 # the same statement with the yield at a deeper operand-stack position / inside another expression kind:
@@ -389,7 +410,11 @@ def print_stmts(nodes, i, ind=1, opts=None, single=False):
                          'log(7000 + (T ? %s : 0));' % y,
                          'log(7000 + (0, [7, 8].length, %s));' % y,
                          'log(((a, b, c) => a + c)(7000, 5, %s));' % y,
-                         'log(7000 + (Fa || %s));' % y]
+                         'log(7000 + (Fa || %s));' % y,
+                         # the assignment target is a reference evaluated BEFORE the yield (kept on the reference stack across the suspension)
+                         '[OBJ.v = %s] = []; log(7000 + OBJ.v);' % y,
+                         'with (OBJ) { v = %s; } log(7000 + OBJ.v);' % y,
+                         '({a: OBJ.v = %s} = {}); log(7000 + OBJ.v);' % y]
                 out.append(p + forms[(i * 7 + n['n']) % len(forms)])
             else:
                 out.append(p + 'log(7000 + (yield %d));' % n['n'])
@@ -411,31 +436,34 @@ def print_stmts(nodes, i, ind=1, opts=None, single=False):
             out.append(p + ('continue L%d;' % n['l'] if n['l'] else 'continue;'))
         elif t == 'block':
             out.append(p + '{')
-            out += print_stmts(nodes, n['a'], ind + 1, opts)
+            out += print_stmts(nodes, n['a'], ind + 1, _scope_enter(opts, out, p))
             out.append(p + '}')
         elif t == 'if':
             if opts.get('constvar'):
                 out.append(p + 'if (%s) {' % ('T' if n['n'] == 1 else 'Fa'))
             else:       # a literal condition: the untaken branch is compiled in the compiler's discard mode
                 out.append(p + 'if (%s) {' % ('true' if n['n'] == 1 else 'false'))
-            out += print_stmts(nodes, n['a'], ind + 1, opts)
+            out += print_stmts(nodes, n['a'], ind + 1, _scope_enter(opts, out, p))
             if n['b']:
                 out.append(p + '} else {')
-                out += print_stmts(nodes, n['b'], ind + 1, opts)
+                out += print_stmts(nodes, n['b'], ind + 1, _scope_enter(opts, out, p))
             out.append(p + '}')
         elif t == 'try':
             out.append(p + 'try {')
-            out += print_stmts(nodes, nodes[n['a'] - 1]['a'], ind + 1, opts)
+            out += print_stmts(nodes, nodes[n['a'] - 1]['a'], ind + 1, _scope_enter(opts, out, p))
             if n['b']:
-                out.append(p + '} catch (e) { log(2000+E(e));')
-                out += print_stmts(nodes, nodes[n['b'] - 1]['a'], ind + 1, opts)
+                out.append(p + '} catch (e) { log(2000+E(e)%s);' % _chk(opts))
+                out += print_stmts(nodes, nodes[n['b'] - 1]['a'], ind + 1, _scope_enter(opts, out, p))
             if n['c']:
-                out.append(p + '} finally { log(%d);' % (1000 + n['n']))
-                out += print_stmts(nodes, nodes[n['c'] - 1]['a'], ind + 1, opts)
+                # (the finally block reads the variables of the blocks around the try statement before declaring its own)
+                out.append(p + '} finally { log(%d%s);' % (1000 + n['n'], _chk(opts)))
+                out += print_stmts(nodes, nodes[n['c'] - 1]['a'], ind + 1, _scope_enter(opts, out, p))
             out.append(p + '}')
         elif t == 'loop':
             v = 'i%d' % i
-            body = print_stmts(nodes, nodes[n['a'] - 1]['a'], ind + 1, dict(opts, label_prefix=''))
+            sc = []
+            body = print_stmts(nodes, nodes[n['a'] - 1]['a'], ind + 1, _scope_enter(dict(opts, label_prefix=''), sc, p))
+            body = sc + body
             pre = opts.get('label_prefix', '')      # a label must sit directly on the loop statement, after the counter init
             if n['c'] == 1:      # do-while: body runs max(1, n) times
                 out.append(p + 'var %s=0; %sdo {' % (v, pre))
@@ -460,7 +488,7 @@ def print_stmts(nodes, i, ind=1, opts=None, single=False):
                 out.append(p + '}')
         elif t == 'forof':
             out.append(p + 'for (var x%d of %s) {' % (i, mkcall(n)))
-            out += print_stmts(nodes, nodes[n['a'] - 1]['a'], ind + 1, opts)
+            out += print_stmts(nodes, nodes[n['a'] - 1]['a'], ind + 1, _scope_enter(opts, out, p))
             out.append(p + '}')
         elif t == 'consume':
             c = ['Array.from(%s);', '[...%s];', 'new Set(%s);', 'Math.max(...%s);'][n['k'] % 4]
@@ -495,7 +523,7 @@ def print_stmts(nodes, i, ind=1, opts=None, single=False):
     return out
 
 
-VARIANTS = ["base", "constvar", "closure", "evaldyn", "with", "block", "iife", "arrowiife", "tostring", "strict", "evalplace", "deadcode"]
+VARIANTS = ["base", "constvar", "closure", "evaldyn", "with", "block", "iife", "arrowiife", "tostring", "strict", "evalplace", "deadcode", "scopes"]
 
 
 def print_js(prog, probes=False, variant="base"):
@@ -512,7 +540,9 @@ def print_js(prog, probes=False, variant="base"):
       tostring   the function is replaced by the re-evaluation of its own toString() text
       strict     "use strict" (the subset has no mode-sensitive construct except `with`)
       evalplace  the whole function is created by an indirect eval at call time
-      deadcode   unreachable statements are appended after every abrupt statement (handled by the statement printer)"""
+      deadcode   unreachable statements are appended after every abrupt statement (handled by the statement printer)
+      scopes     every block declares a block-scoped variable captured by a closure; every logged number checks that the variables of
+                 all enclosing blocks are seen with their own values (adds 500000 otherwise)"""
     nodes = prog['nodes']
     opts = {}
     if probes:
@@ -525,9 +555,16 @@ def print_js(prog, probes=False, variant="base"):
         opts['yform'] = True
     if variant == "async":
         opts['async'] = True
+    if variant == "scopes":
+        # every block declares a captured block-scoped variable; every logged number checks the variables of all enclosing blocks
+        opts['scopes'] = []
+        opts['scopectr'] = [0]
+    scope_pre = []
+    if variant == "scopes":
+        opts = _scope_enter(opts, scope_pre, '')
     body = '\n'.join(print_stmts(nodes, nodes[prog['root'] - 1]['a'], 1, opts))
     star = '*' if prog['gen'] else ''
-    pre_body = ''
+    pre_body = ''.join(x + '\n' for x in scope_pre)
     if variant == "constvar":
         pre_body = '  var K0=0,K1=1,K2=2,K3=3,K4=4,K5=5,K6=6,K7=7,K8=8,K9=9;\n'
     if variant == "closure":
@@ -553,7 +590,7 @@ def print_js(prog, probes=False, variant="base"):
         fdef += '\nf = (0, eval)("(" + f.toString() + ")");'
     if variant == "evalplace":
         fdef = 'var f = (0, eval)(%s);' % json.dumps('(' + fdef + ')')
-    head = PRE + 'var T=true, Fa=false;\n'
+    head = PRE + 'var T=true, Fa=false, OBJ={v:0}, GR;\n'
     if variant == "async":
         # the generator body as an async function: `yield n` is `await AW(n)`, and the i-th driver call next(v) / throw(e) becomes
         # the settlement of the i-th awaited operand (a promise, a plain value or a thenable, by position)
@@ -573,9 +610,13 @@ def print_js(prog, probes=False, variant="base"):
                 return '[7, 8, %s].length;' % c
             if k == 3:      # inside the caller's try/finally inside for-in
                 return 'for (var q%d in {a:1}) { try { %s; } finally { } }' % (i, c)
+            if k == 4:      # two open iterators of the caller, the result assigned through a dynamically resolved (global) reference
+                return ('for (var qa%d of [0]) for (var qb%d of [0, 1]) { if (qb%d) continue; try { GR = it.%s(%d); RL(GR); } catch (e) { log(200000+E(e)); } }'
+                        % (i, i, i, o['op'], o['v']))
             return c + ';'
         drv = '\n'.join(call(i, o) for i, o in enumerate(prog['ops']))
         return (head + fdef + '\nvar it=f();\n'
+                'function RL(r){ log(100000 + (r.value===undefined?0:r.value)*10 + (r.done?1:0)) }\n'
                 'function R(g){ try { var r=g(); log(100000 + (r.value===undefined?0:r.value)*10 + (r.done?1:0)) } '
                 'catch(e){ log(200000+E(e)) } }\n' + drv)
     return head + fdef
